@@ -12,6 +12,8 @@ CONSTANTS
   Filters <- FNone
   Order <- OrderClearAlso
   CompileMode = "stated"
+  Inners <- InnersNone
+  ScopeMode = "stated"
 INIT InitCover
 NEXT Next
 INVARIANTS KeepInv BalanceSheetInv IncomeInv EquityInv TxBalanceInv FilterInv CompileInv SortedInv ExpectInv LayoutInv
